@@ -210,6 +210,11 @@ class Model:
             cap = 150
         elif self.cfg.get('xa'):
             cap = 190
+        xl = op.get('xl')
+        if xl and not isdir:
+            # exact lengths requested (sector-filling recipes)
+            return {'iso': names.exact_iso_file(n, xl.get('iso', 10), lead), 'rr': names.exact_plain(n, xl.get('rr', 8), lead),
+                    'jol': names.exact_plain(n, xl.get('jol', 5), lead), 'udf': names.exact_plain(n, xl.get('udf', 7), lead)}
         return {
             'iso': names.iso_dir(n, lvl, sz, lead, salt, cap) if isdir else names.iso_file(n, lvl, sz, lead, salt, 1, cap),
             'rr': names.rr_name(n, op.get('rsz', sz), lead, salt),
